@@ -37,7 +37,7 @@ def coq_term(line):
         elif k == "pb":
             t = f"GPushBorrowed {gbytes(hexb(p[1]))}"
         elif k == "an":
-            t = f"GAnchored {gbytes(hexb(p[1]))}"
+            t = f"GAnchored {gbytes(hexb(p[1]))} {p[2] if len(p) > 2 else len(hexb(p[1]))}"
         elif k == "ex":
             t = "GExtend " + glist([gbytes(hexb(h)) for h in p[1].split(",")])
         elif k == "rp":
